@@ -460,8 +460,8 @@ example : decryptBlock boxOps [exKey] [] exBadBackend = .panic ∧ extractBlock 
 example : validateStruct [] = .err ∧ validateStruct exStruct = .ok () := by decide
 example : getDataLength [] = .panic ∧ getDataLength exStruct = .ok 3 := by decide
 example : extractStruct [] = .err ∧ extractStruct (exStruct ++ [1, 2]) = .ok (148, exStruct) := by decide
-example : decryptStruct boxOps [1] [] exStruct = .err ∧ decryptStruct toyOps [1] [] exStruct = .ok [9, 9, 9] ∧
-    decryptStructRotated toyOps [] exStruct [] = .err ∧ decryptStructRotated toyOps [] exStruct [[1]] = .ok [9, 9, 9] := by
+example : decryptStruct boxOps [1] [] exStruct = .err ∧ decryptStruct safeToyOps [1] [] exStruct = .ok [9, 9, 9] ∧
+    decryptStructRotated safeToyOps [] exStruct [] = .err ∧ decryptStructRotated safeToyOps [] exStruct [[1]] = .ok [9, 9, 9] := by
   decide
 
 /-- container family -/
